@@ -148,6 +148,10 @@ class Shadow:
             if not it.empty:
                 self.assign(st.target, it.elem, fr, fi)
                 self.block(st.body, fr, fi)  # one representative iteration
+        elif isinstance(st, ast.While):
+            if not getattr(self, "loop_once", False):
+                raise Unsupported("while loop")
+            self.block(st.body, fr, fi)  # one representative iteration (the loop condition is checked separately)
         elif isinstance(st, ast.Try):
             # the no-exception path (fault paths are the subject of C13, not of the arithmetic)
             self.block(st.body, fr, fi)
@@ -265,6 +269,8 @@ class Shadow:
                 return v
             raise Unsupported(f"free name {e.id}")
         if isinstance(e, ast.Attribute):
+            if isinstance(e.value, ast.Name) and e.value.id in ("torch", "math") and e.attr == "inf":
+                return self.sym("inf")
             base = self.ev(e.value, fr, fi) if not (isinstance(e.value, ast.Name) and e.value.id in ("torch",)) else None
             if isinstance(base, Obj):
                 if e.attr not in base.fields:
@@ -280,6 +286,8 @@ class Shadow:
                     fr[nm][key] = ListRep(Cell(self.sym(f"{nm}[{key}]")))
                 return fr[nm][key]
             base = self.ev(e.value, fr, fi)
+            if isinstance(base, Cell) and "subscript" in self.opaque:
+                return self.opaque["subscript"](self, base, e.slice, fr, fi)
             if isinstance(base, ListRep):
                 return base.elem
             if isinstance(base, tuple) and isinstance(e.slice, ast.Constant):
